@@ -327,6 +327,10 @@ def build(ctx):
     ctx.unit("_handle_zero_instances_cases", lambda: unit_zero_cases(ctx))
     # "zero true positives" presupposes that the per-instance lists hold exactly the true positives (C02's evaluator contract), regenerated here
     include_stage(ctx, "C02", only=lambda mod, sub: [sub.unit(f"evaluate_matched_instance[{dec}]", lambda dec=dec: mod.unit_eval_matched(sub, dec, ["DSC", "IOU", "ASSD"])) for dec in (None, "IOU", "ASSD")])
+    # a "no match" evaluation is one in which relabelling matched nothing (C04), and the set of metrics whose zero-TP value is asked for is
+    # the configured one: constructing evaluators must not change a shared metric list (C15's constructor frame)
+    include_stage(ctx, "C04")
+    include_stage(ctx, "C15", only=lambda mod, sub: [sub.unit("ctor_defaults", lambda: mod.unit_ctor_defaults(sub))])
     ctx.add_bounded("c08-enum", "c08.bounded")
 
 
